@@ -292,10 +292,10 @@ theorem IdInv.setRed {s : State} (h : IdInv s) (k : Addr × Val × Val) (t amt :
       omega
     · rw [get_put_ne _ _ _ _ hk] at hg; exact h.rndup k' es0 hg
 
-theorem addEntry_shape (es : List Entry) (t amt id : Nat) :
-    ((addEntry es t amt id).2 = true ∧ (addEntry es t amt id).1 = es ++ [(t, amt, id)]) ∨
-    ((addEntry es t amt id).2 = false ∧
-      (addEntry es t amt id).1.map (fun e : Entry => e.2.2) = es.map (fun e : Entry => e.2.2)) := by
+theorem addEntry_shape (es : List Entry) (t amt id lo : Nat) :
+    ((addEntry es t amt id lo).2 = true ∧ (addEntry es t amt id lo).1 = es ++ [(t, amt, id)]) ∨
+    ((addEntry es t amt id lo).2 = false ∧
+      (addEntry es t amt id lo).1.map (fun e : Entry => e.2.2) = es.map (fun e : Entry => e.2.2)) := by
   unfold addEntry
   split
   · right
@@ -324,8 +324,9 @@ theorem idInv_undelegate {s s' : State} {d v amt rw} (h : IdInv s) (e : undelega
           have i1 := h.frame f1
           have hes : (get s.ubds (d, v)).getD [] = (get s1.ubds (d, v)).getD [] := by rw [f1.ubds]
           rw [hes]
-          refine i1.setUbd (d, v) _ (addEntry ((get s1.ubds (d, v)).getD []) (s.now + s.unbondTime) amt s1.nextUnbId).2
-            (s.now + s.unbondTime) amt (addEntry_shape _ _ _ _) _ rfl rfl rfl rfl
+          refine i1.setUbd (d, v) _
+            (addEntry ((get s1.ubds (d, v)).getD []) (s.now + s.unbondTime) amt s1.nextUnbId s.blockFirstId).2
+            (s.now + s.unbondTime) amt (addEntry_shape _ _ _ _ _) _ rfl rfl rfl rfl
 
 theorem idInv_redelegate {s s' : State} {d a b amt r1 r2} (h : IdInv s) (e : redelegate s d a b amt r1 r2 = some s') :
     IdInv s' := by
